@@ -71,6 +71,20 @@ Proof.
 Qed.
 Print Assumptions stl_chunked_roundtrip.
 
+(* ---- which byte strings are accepted ----
+   exactly those holding the 84-byte preamble and 50 bytes for each of the n records the count field announces
+   (n up to 2^32-1; anything after them is ignored, anything shorter is rejected); with the theorem above the
+   same holds for the chunked reader with any chunk size *)
+Theorem stl_read_accepts_iff : forall bytes, (84 <= length bytes)%nat ->
+  exists n, get32 (skipn 80 bytes) = Some (n, skipn 84 bytes) /\
+    ((exists hdr ts, read bytes = Some (hdr, ts)) <-> 84 + 50 * n <= N.of_nat (length bytes)).
+Proof. exact read_accepts_iff. Qed.
+Print Assumptions stl_read_accepts_iff.
+
+Theorem stl_read_short_header : forall bytes, (length bytes < 84)%nat -> read bytes = None.
+Proof. exact read_short_header. Qed.
+Print Assumptions stl_read_short_header.
+
 (* ---- which word is stored where ----
    record t of a written file occupies bytes 84 + 50 t .. 84 + 50 t + 49; by definition
    rec50 t = vec12 normal ++ vec12 v1 ++ vec12 v2 ++ vec12 v3 ++ le16 attribute (little-endian words) *)
